@@ -214,11 +214,16 @@ fn iccma_case(max_n: usize, max_muts: usize) -> BoxedStrategy<ReaderCase> {
 }
 
 fn apx_case(max_n: usize, max_muts: usize) -> BoxedStrategy<ReaderCase> {
-    const NAMES: [&str; 10] = ["a", "b", "c", "_x1", "A9_", "arg", "att", "a1", "_", "zZ_9"];
+    // two name sets: mixed identifiers, and identifiers over {a, b, _} that are concatenations of one another
+    // (whatever glues two names with a separator that is itself an identifier character collides on them)
+    const NAME_SETS: [[&str; 10]; 2] = [
+        ["a", "b", "c", "_x1", "A9_", "arg", "att", "a1", "_", "zZ_9"],
+        ["_", "__", "a", "a_", "_a", "a_a", "a__a", "___", "a_b", "b"],
+    ];
     (
-        0usize..=max_n.min(NAMES.len()),
+        0usize..=max_n.min(NAME_SETS[0].len()),
         vec((any::<u16>(), any::<u16>(), deco(), deco(), 0u8..10), 0..=10),
-        vec((deco(), 0u8..10), NAMES.len()),
+        vec((deco(), 0u8..10), NAME_SETS[0].len()),
         (any::<bool>(), any::<bool>(), vec((any::<u16>(), 0u8..2), 0..=3)),
         vec(mutation(), 0..=max_muts),
         prop_oneof![6 => Just(0u8), 1 => 1u8..=9],
@@ -226,6 +231,8 @@ fn apx_case(max_n: usize, max_muts: usize) -> BoxedStrategy<ReaderCase> {
     )
         .prop_map(|(n, atts, argdeco, (crlf, final_nl, blanks), muts, targeted, tpos)| {
             let nl = if crlf { "\r\n" } else { "\n" };
+            #[allow(non_snake_case)]
+            let NAMES = NAME_SETS[(tpos % 3 == 0) as usize];
             let mut lines: Vec<String> = vec![];
             for i in 0..n {
                 let (d, dup) = &argdeco[i];
